@@ -29,14 +29,17 @@ const (
 func (s mstate) String() string { return [...]string{"closed", "open", "half-open"}[s] }
 
 type Monitor struct {
-	cfg      Cfg
-	state    mstate
-	run      int // failures accumulated with no gap > interval
-	lastFail time.Time
-	hasFail  bool
-	openedAt time.Time
-	trials   int
-	succ     int
+	cfg        Cfg
+	state      mstate
+	run        int // failures accumulated with no gap > interval
+	lastFail   time.Time
+	hasFail    bool
+	openedAt   time.Time
+	trials     int
+	succ       int
+	total      int  // failures since the breaker was last closed (any gaps)
+	Weak       bool // set for a call that ran for a long time: see Step
+	weakPeriod bool // a long-running call failed in the current closed period
 
 	Opened   int // how often the breaker opened
 	HalfSeen int // how often a half-open episode started
@@ -67,7 +70,11 @@ func (m *Monitor) Step(now time.Time, o Obs) string {
 			return fmt.Sprintf("S1': rejected while closed with only %d failure(s) accumulated within interval (threshold %d)", m.run, c.FT)
 		}
 		if o.Failed {
+			if m.Weak {
+				m.weakPeriod = true
+			}
 			m.run++
+			m.total++
 			m.lastFail, m.hasFail = now, true
 			if m.run >= c.FT {
 				m.state, m.openedAt = mOpen, now
@@ -79,6 +86,14 @@ func (m *Monitor) Step(now time.Time, o Obs) string {
 			}
 		}
 		if o.After != 0 {
+			// A long-running call was admitted long before it failed: which of the two instants counts
+			// for the "gap longer than interval" is not stated, so only the weak converse applies to
+			// it (at least failure_threshold failures since the breaker was last closed).
+			if (m.Weak || m.weakPeriod) && o.After == 1 && m.total >= c.FT {
+				m.state, m.openedAt = mOpen, now
+				m.Opened++
+				return ""
+			}
 			return fmt.Sprintf("S1': breaker left closed state (reports %d) with %d/%d failures accumulated", o.After, m.run, c.FT)
 		}
 		return ""
@@ -129,7 +144,7 @@ func (m *Monitor) trial(now time.Time, o Obs) string {
 		if m.succ < c.ST {
 			return fmt.Sprintf("S4: breaker closed after %d successful trial(s), success_threshold is %d", m.succ, c.ST)
 		}
-		m.state, m.run = mClosed, 0
+		m.state, m.run, m.total, m.weakPeriod = mClosed, 0, 0, false
 		m.Closed++
 	case 1:
 		return "S4: breaker re-opened after a successful trial"
